@@ -7,7 +7,7 @@ PROFILE = dict(weights=[5, 1, 2.5, 0.8, 0.6, 0.1, 0], queries=["lookup", "lookup
 # the entry points must agree in every reachable state, including states reached by declaration / hierarchy changes while
 # some entry points are warm (cached) and others cold
 WORLD_PROFILE = dict(weights=[3, 0.8, 1.5, 0.4, 2.5, 2.5, 2, 0.5, 0.2], nregs=(1, 3), extra=2, provq=0, arity=[1, 1, 2, 2],
-                     scen_hit=0.12, scen_rbases=0.03, scen_rebuild=0.03)
+                     scen_hit=0.12, scen_rbases=0.03, scen_rebuild=0.03, scen_entry=0.2, single_entry=0.4)
 
 
 def check(tier):
@@ -18,6 +18,7 @@ def check(tier):
         "distinct_nontrivial = object-level adaptation calls judged against lookup's specification",
         "object_adaptations",
         "registry-layer correspondence (entry points of LookupBase/AdapterLookupBase, C and py)",
+        reentry_eps=worldcommon.REENTRY_EPS,
         extra_stream=worldcommon.twin_stream("C08", WORLD_PROFILE, dict(quick=30, thorough=600),
                                              ("lookup", "lookup1", "lookupAll", "names", "qadapter", "subs", "subscribers")))
 
